@@ -169,7 +169,7 @@ pub fn run(cfg: &Cfg, rep: &mut Rep) {
         }
     }
     let mut r = Rng::new(cfg.seed, 0x0700 + sh as u64);
-    let nrand = cfg.budget(600_000);
+    let nrand = cfg.budget(3_000_000);
     let lat = gen::reading_lattice(TimeScale::TAI, &w.leap);
     for k in 0..nrand {
         let t = match r.below(10) {
